@@ -1,12 +1,13 @@
 package props
 
 import (
+	"context"
 	"encoding/json"
 	stderrors "errors"
-	"fmt"
 	"io"
 	"net/http"
 	"net/http/httptest"
+	"net/url"
 	"sort"
 	"strconv"
 	"strings"
@@ -161,6 +162,68 @@ func c02SecurityJSON(alts [][]c02Req) []map[string][]string {
 	return out
 }
 
+// c02Sum is a checksum of fields of the case: every choice Exec makes on its own (how a scheme's
+// credentials travel, which entry point serves, the spelling of the request, the Go type of a
+// principal or an error) is a function of the input, so a case replays identically.
+func c02Sum(fields ...string) int {
+	h := uint32(2166136261)
+	for _, f := range fields {
+		for i := 0; i < len(f); i++ {
+			h = (h ^ uint32(f[i])) * 16777619
+		}
+		h = (h ^ 0xff) * 16777619
+	}
+	return int(h>>3) & 0xfffffff
+}
+
+// c02Coded is a second implementation of the errors.Error interface (applications bring their own)
+type c02Coded struct {
+	code int32
+	msg  string
+}
+
+func (e *c02Coded) Error() string { return e.msg }
+func (e *c02Coded) Code() int32   { return e.code }
+
+// c02Princ is a principal the way applications have them: a pointer to a struct
+type c02Princ struct{ text string }
+
+// c02MkPrincipal: the principal with the given text. The empty text is one of the non-nil zero
+// values of Go (an accepted principal is any non-nil value); other texts are a string or a pointer.
+func c02MkPrincipal(text string, v int) interface{} {
+	if text == "" {
+		switch v % 5 {
+		case 0:
+			return ""
+		case 1:
+			return 0
+		case 2:
+			return false
+		case 3:
+			return struct{}{}
+		default:
+			return 0.0
+		}
+	}
+	if v%2 == 1 {
+		return &c02Princ{text}
+	}
+	return text
+}
+
+// c02PrincText is the inverse of c02MkPrincipal
+func c02PrincText(p interface{}) string {
+	switch x := p.(type) {
+	case string:
+		return x
+	case *c02Princ:
+		return x.text
+	case int, bool, struct{}, float64:
+		return ""
+	}
+	return "?unknown principal"
+}
+
 // c02Err builds the scripted error: c<code>.<hexmsg> | p<hexmsg>
 func c02Err(f string) error {
 	if f == "" {
@@ -172,6 +235,9 @@ func c02Err(f string) error {
 		n, err := strconv.Atoi(code)
 		if err != nil {
 			panic("C02: bad error code " + f)
+		}
+		if c02Sum(f)%2 == 1 {
+			return &c02Coded{int32(n), proto.UnB(msg)}
 		}
 		return errors.New(int32(n), "%s", proto.UnB(msg))
 	case 'p':
@@ -212,18 +278,43 @@ type c02API struct {
 	log           []string
 	consumerCalls int
 	handlerRan    int
+	method        string // the operation's method and request path: chosen per structure
+	path          string
+	carrier       map[string]int // how the credentials of each scheme travel (c02Via...)
 }
+
+// How the outcome scripted for a scheme reaches its authenticator: every constructor of
+// security/authenticator.go is used. At most one scheme of an API reads the Authorization header.
+const (
+	c02ViaKeyHeader    = iota // security.APIKeyAuth(name, "header")  — header X-K-<name>
+	c02ViaKeyQuery            // security.APIKeyAuth(name, "query")   — query parameter X-K-<name>
+	c02ViaKeyHeaderCtx        // security.APIKeyAuthCtx, header
+	c02ViaKeyQueryCtx         // security.APIKeyAuthCtx, query
+	c02ViaHTTP                // security.HttpAuthenticator around a function reading the header
+	c02ViaScoped              // security.ScopedAuthenticator around a function reading the header
+	c02ViaRaw                 // a bare runtime.AuthenticatorFunc reading the header
+	c02NKeyCarriers
+	c02ViaBearer     = iota - 1 // security.BearerAuth: Authorization: Bearer <token>, or access_token in the query
+	c02ViaBearerCtx             // security.BearerAuthCtx
+	c02ViaBasic                 // security.BasicAuth: user <name>, password <token>
+	c02ViaBasicCtx              // security.BasicAuthCtx
+	c02ViaBasicRealm            // security.BasicAuthRealm
+	c02NCarriers
+)
+
+type c02CtxKey string
 
 var c02Cache = map[string]*c02API{}
 
-func (a *c02Authorizer) Authorize(_ *http.Request, p interface{}) error {
+func (a *c02Authorizer) Authorize(r *http.Request, p interface{}) error {
 	switch a.kind {
 	case 'a':
-		return nil
+		// the library's own accept-all authorizer
+		return security.Authorized().Authorize(r, p)
 	case 'D':
 		return a.err
 	case 'O':
-		if s, ok := p.(string); ok && s == a.princ {
+		if p != nil && c02PrincText(p) == a.princ {
 			return a.err
 		}
 		return nil
@@ -266,9 +357,66 @@ func c02Build(in []string) *c02API {
 		"consumes": []string{"application/json"},
 		"produces": []string{"application/json"},
 	}
+	// ---- choices per structure (functions of the structural inputs, which key the cache)
+	ssum := c02Sum(in[1], in[2], in[3], in[4])
+	a := &c02API{carrier: map[string]int{}}
+	a.method = []string{"post", "put", "patch"}[ssum%3]
+	opPath := []string{"/op", "/op/{id}", "/things/{id}/op"}[(ssum/3)%3]
+	base := []string{"/", "/v1", "/api/"}[(ssum/9)%3]
+	a.path = strings.TrimRight(base, "/") + strings.Replace(opPath, "{id}", "7", 1)
+	doc["basePath"] = base
+	// how each scheme's credentials travel; the first scheme (by name) that draws a carrier on the
+	// Authorization header keeps it, later ones fall back to an API key of their own
+	var all []string
+	seenName := map[string]bool{}
+	addName := func(nm string) {
+		if !seenName[nm] {
+			seenName[nm] = true
+			all = append(all, nm)
+		}
+	}
+	for _, nm := range defs {
+		addName(nm)
+	}
+	for _, nm := range reg {
+		addName(nm)
+	}
+	for _, alts := range [][][]c02Req{global, op} {
+		for _, alt := range alts {
+			for _, rq := range alt {
+				addName(rq.name)
+			}
+		}
+	}
+	sort.Strings(all)
+	authorizationTaken := false
+	for _, nm := range all {
+		k := c02Sum(in[1], in[2], in[3], in[4], nm) % (c02NCarriers + 3) // API keys in a header stay the most frequent
+		if k >= c02NCarriers {
+			k = c02ViaKeyHeader
+		}
+		if k >= c02NKeyCarriers {
+			if authorizationTaken {
+				k = k % c02NKeyCarriers
+			} else {
+				authorizationTaken = true
+			}
+		}
+		a.carrier[nm] = k
+	}
 	sd := map[string]interface{}{}
 	for _, d := range defs {
-		sd[d] = map[string]string{"type": "apiKey", "in": "header", "name": "X-K-" + d}
+		switch k := a.carrier[d]; {
+		case k == c02ViaKeyQuery || k == c02ViaKeyQueryCtx:
+			sd[d] = map[string]string{"type": "apiKey", "in": "query", "name": "X-K-" + d}
+		case k == c02ViaBearer || k == c02ViaBearerCtx:
+			sd[d] = map[string]interface{}{"type": "oauth2", "flow": "implicit", "authorizationUrl": "https://example.test/authorize",
+				"scopes": map[string]string{"s1": "one", "s2": "two", "s3": "three", "read:pets": "r", "write:pets": "w"}}
+		case k >= c02ViaBasic:
+			sd[d] = map[string]string{"type": "basic"}
+		default:
+			sd[d] = map[string]string{"type": "apiKey", "in": "header", "name": "X-K-" + d}
+		}
 	}
 	if len(sd) > 0 {
 		doc["securityDefinitions"] = sd
@@ -276,18 +424,22 @@ func c02Build(in []string) *c02API {
 	if global != nil {
 		doc["security"] = c02SecurityJSON(global)
 	}
+	params := []interface{}{
+		map[string]interface{}{"name": "body", "in": "body", "required": true, "schema": map[string]string{"type": "object"}},
+		map[string]interface{}{"name": "q", "in": "query", "required": true, "type": "integer"},
+	}
+	if strings.Contains(opPath, "{id}") {
+		params = append(params, map[string]interface{}{"name": "id", "in": "path", "required": true, "type": "string"})
+	}
 	operation := map[string]interface{}{
 		"operationId": "op",
-		"parameters": []interface{}{
-			map[string]interface{}{"name": "body", "in": "body", "required": true, "schema": map[string]string{"type": "object"}},
-			map[string]interface{}{"name": "q", "in": "query", "required": true, "type": "integer"},
-		},
-		"responses": map[string]interface{}{"200": map[string]string{"description": "ok"}},
+		"parameters":  params,
+		"responses":   map[string]interface{}{"200": map[string]string{"description": "ok"}},
 	}
 	if op != nil {
 		operation["security"] = c02SecurityJSON(op)
 	}
-	doc["paths"] = map[string]interface{}{"/op": map[string]interface{}{"post": operation}}
+	doc["paths"] = map[string]interface{}{opPath: map[string]interface{}{a.method: operation}}
 	raw, err := json.Marshal(doc)
 	if err != nil {
 		panic(err)
@@ -298,20 +450,70 @@ func c02Build(in []string) *c02API {
 	}
 
 	// ---- the API registrations
-	a := &c02API{}
 	api := untyped.NewAPI(ldoc)
 	for _, name := range reg {
 		name := name
-		inner := security.APIKeyAuth("X-K-"+name, "header", func(token string) (interface{}, error) {
+		// what the application's callback makes of the credentials it is handed
+		decode := func(token string) (interface{}, error) {
 			switch token[0] {
 			case 'z':
 				return nil, nil
 			case 'a':
-				return proto.UnB(token[1:]), nil
+				return c02MkPrincipal(proto.UnB(token[1:]), c02Sum(name, token)), nil
 			default:
 				return nil, c02Err(token)
 			}
-		})
+		}
+		decodeCtx := func(ctx context.Context, token string) (context.Context, interface{}, error) {
+			p, err := decode(token)
+			return context.WithValue(ctx, c02CtxKey(name), token), p, err
+		}
+		fromHeader := func(r *http.Request) (bool, interface{}, error) {
+			token := r.Header.Get("X-K-" + name)
+			if token == "" {
+				return false, nil, nil
+			}
+			p, err := decode(token)
+			return true, p, err
+		}
+		var inner runtime.Authenticator
+		switch a.carrier[name] {
+		case c02ViaKeyHeader:
+			inner = security.APIKeyAuth("X-K-"+name, []string{"header", "Header"}[ssum%2], decode)
+		case c02ViaKeyQuery:
+			inner = security.APIKeyAuth("X-K-"+name, []string{"query", "QUERY"}[ssum%2], decode)
+		case c02ViaKeyHeaderCtx:
+			inner = security.APIKeyAuthCtx("X-K-"+name, "header", decodeCtx)
+		case c02ViaKeyQueryCtx:
+			inner = security.APIKeyAuthCtx("X-K-"+name, "query", decodeCtx)
+		case c02ViaHTTP:
+			inner = security.HttpAuthenticator(fromHeader)
+		case c02ViaScoped:
+			inner = security.ScopedAuthenticator(func(sr *security.ScopedAuthRequest) (bool, interface{}, error) { return fromHeader(sr.Request) })
+		case c02ViaRaw:
+			inner = runtime.AuthenticatorFunc(func(params interface{}) (bool, interface{}, error) {
+				if sr, ok := params.(*security.ScopedAuthRequest); ok {
+					return fromHeader(sr.Request)
+				}
+				return false, nil, nil
+			})
+		case c02ViaBearer:
+			inner = security.BearerAuth(name, func(token string, _ []string) (interface{}, error) { return decode(token) })
+		case c02ViaBearerCtx:
+			inner = security.BearerAuthCtx(name, func(ctx context.Context, token string, _ []string) (context.Context, interface{}, error) {
+				return decodeCtx(ctx, token)
+			})
+		case c02ViaBasic:
+			inner = security.BasicAuth(func(_, pass string) (interface{}, error) { return decode(pass) })
+		case c02ViaBasicCtx:
+			inner = security.BasicAuthCtx(func(ctx context.Context, _, pass string) (context.Context, interface{}, error) {
+				return decodeCtx(ctx, pass)
+			})
+		case c02ViaBasicRealm:
+			inner = security.BasicAuthRealm("realm of "+name, func(_, pass string) (interface{}, error) { return decode(pass) })
+		default:
+			panic("C02: carrier")
+		}
 		api.RegisterAuth(name, runtime.AuthenticatorFunc(func(params interface{}) (bool, interface{}, error) {
 			entry := name + "|"
 			if sr, ok := params.(*security.ScopedAuthRequest); ok {
@@ -328,13 +530,32 @@ func c02Build(in []string) *c02API {
 		api.RegisterAuthorizer(a.authz)
 	}
 	api.RegisterConsumer("application/json", c02Consumer{calls: &a.consumerCalls, inner: runtime.JSONConsumer()})
-	api.RegisterOperation("post", "/op", runtime.OperationHandlerFunc(func(interface{}) (interface{}, error) {
+	api.RegisterOperation(a.method, opPath, runtime.OperationHandlerFunc(func(interface{}) (interface{}, error) {
 		a.handlerRan++
 		return map[string]string{}, nil
 	}))
 
 	a.ctx = middleware.NewContext(ldoc, api, nil)
-	a.handler = a.ctx.APIHandler(nil)
+	// every public way to turn the Context into a handler puts newSecureAPI in front of the
+	// operation. (middleware.Serve/ServeWithBuilder are NewContext + APIHandler(builder); they are
+	// not used because a Context of their own has a router of its own, whose scheme order - a map
+	// iteration order - could not be read back for the model.)
+	switch (ssum / 27) % 6 {
+	case 0:
+		a.handler = a.ctx.APIHandler(nil)
+	case 1:
+		a.handler = a.ctx.APIHandler(middleware.PassthroughBuilder)
+	case 2:
+		a.handler = a.ctx.RoutesHandler(nil)
+	case 3:
+		a.handler = a.ctx.APIHandler(func(next http.Handler) http.Handler {
+			return http.HandlerFunc(func(w http.ResponseWriter, r *http.Request) { next.ServeHTTP(w, r) })
+		})
+	case 4:
+		a.handler = a.ctx.APIHandlerSwaggerUI(middleware.PassthroughBuilder)
+	default:
+		a.handler = a.ctx.APIHandlerRapiDoc(nil)
+	}
 	return a
 }
 
@@ -367,27 +588,89 @@ func c02Exec(in []string) []string {
 	a.log, a.consumerCalls, a.handlerRan = nil, 0, 0
 	ctx := a.ctx
 
-	newReq := func() *http.Request {
-		target, body, ct := "/op?q=1", "{}", "application/json"
+	// the request: what is right or wrong with it is in[7]; how it is spelled (one of several
+	// equivalent bodies, media types, query strings, Accept lines) is drawn from the case's checksum
+	rsum := c02Sum(in[5], in[6], in[7])
+	mkReq := func(outcomes map[string]string) *http.Request {
+		body := []string{"{}", `{"a":1}`, " {}\n"}[rsum%3]
+		ct := []string{"application/json", "application/json; charset=utf-8", "application/json;charset=UTF-8"}[(rsum/3)%3]
+		query := url.Values{}
+		switch (rsum / 9) % 3 {
+		case 0:
+			query.Set("q", "1")
+		case 1:
+			query.Set("q", "42")
+		default:
+			query.Set("q", "-7")
+			query.Set("x", "y")
+		}
 		switch in[7] {
 		case "g":
 		case "b":
-			body = "{"
+			body = []string{"{", "[1", `{"a":`, "nope"}[rsum%4]
 		case "t":
-			ct = "text/plain"
+			ct = []string{"text/plain", "application/xml", "image/png", "text/plain; charset=utf-8"}[rsum%4]
 		case "q":
-			target = "/op"
+			query.Del("q")
+			if rsum%3 == 1 {
+				query.Set("Q", "1") // names of parameters are case-sensitive
+			}
 		default:
 			panic("C02: bad request kind")
 		}
-		r := httptest.NewRequest(http.MethodPost, target, strings.NewReader(body))
-		r.Header.Set("Content-Type", ct)
+		header := http.Header{}
 		for name, oc := range outcomes {
-			if oc != "n" {
-				r.Header.Set("X-K-"+name, oc)
+			if oc == "n" {
+				continue
+			}
+			switch a.carrier[name] {
+			case c02ViaKeyQuery, c02ViaKeyQueryCtx:
+				query.Set("X-K-"+name, oc)
+			case c02ViaBearer, c02ViaBearerCtx:
+				if (rsum/27)%2 == 0 {
+					header.Set("Authorization", "Bearer "+oc)
+				} else {
+					query.Set("access_token", oc)
+				}
+			case c02ViaBasic, c02ViaBasicCtx, c02ViaBasicRealm:
+				rr := &http.Request{Header: header}
+				rr.SetBasicAuth(name, oc)
+			default:
+				header.Set("X-K-"+name, oc)
 			}
 		}
+		target := a.path
+		if enc := query.Encode(); enc != "" {
+			target += "?" + enc
+		}
+		r := httptest.NewRequest(strings.ToUpper(a.method), target, strings.NewReader(body))
+		r.Header = header
+		r.Header.Set("Content-Type", ct)
+		switch (rsum / 54) % 3 {
+		case 1:
+			r.Header.Set("Accept", "application/json")
+		case 2:
+			r.Header.Set("Accept", "*/*")
+		}
 		return r
+	}
+	newReq := func() *http.Request { return mkReq(outcomes) }
+	if (rsum/162)%3 == 0 {
+		// other requests first, through the same objects: every scheme accepts a principal of its
+		// own, then nobody presents anything. What they are answered is not this case's business;
+		// nothing of it may stay behind.
+		warm := map[string]string{}
+		for name := range a.carrier {
+			warm[name] = "a" + proto.B("warm-"+name)
+		}
+		for _, oc := range []map[string]string{warm, {}} {
+			a.handler.ServeHTTP(httptest.NewRecorder(), mkReq(oc))
+			rw := mkReq(oc)
+			if routeW, ok := ctx.LookupRoute(rw); ok {
+				_, _, _ = ctx.Authorize(rw, routeW)
+			}
+		}
+		a.log, a.consumerCalls, a.handlerRan = nil, 0, 0
 	}
 
 	// ---- what the router built
@@ -451,7 +734,7 @@ func c02Exec(in []string) []string {
 		}
 		ps := "~"
 		if p != nil {
-			ps = proto.B(fmt.Sprint(p))
+			ps = proto.B(c02PrincText(p))
 		}
 		if cp := middleware.SecurityPrincipalFrom(r); cp != p {
 			ps += "!ctx"
@@ -486,17 +769,26 @@ func c02Exec(in []string) []string {
 // generator
 
 var c02Names = []string{"a", "b", "c", "d", "e"}
-var c02Scopes = []string{"s1", "s2", "s3"}
+
+// names as documents spell them (1 structure in 4)
+var c02LongNames = []string{"api_key", "basic", "key2", "oauth2", "petstore_auth"}
+var c02Scopes = []string{"s1", "s2", "s3", "s1", "s2", "read:pets", "write:pets", "admin"}
 
 func c02GenErr(r *proto.Rng) string {
 	if r.Chance(1, 3) {
-		return "p" + proto.B(r.Pick("bad", "nope", "plain"))
+		// plain errors, also with an empty text, a formatting verb, quotes and non-ASCII text
+		return "p" + proto.B(r.Pick("bad", "nope", "plain", "bad", "nope", "", "100%d of %s", `say "no"`, "numéro"))
 	}
-	return "c" + r.Pick("401", "403", "400", "418", "429", "500", "700") + "." + proto.B(r.Pick("rej", "denied", "no", "x"))
+	// codes over the whole range ServeError knows (>= 600: not a status, served as 422)
+	return "c" + r.Pick("401", "403", "400", "418", "429", "500", "700", "401", "403", "404", "409", "422", "503", "599", "600", "999") + "." +
+		proto.B(r.Pick("rej", "denied", "no", "x", "rej", "no", "", "100%d", `a "b" <c>`, "unauthenticated for invalid credentials"))
 }
 
 func c02GenAlts(r *proto.Rng, names []string) [][]c02Req {
 	n := 1 + r.Intn(4)
+	if r.Chance(1, 12) {
+		n = 5 + r.Intn(2)
+	}
 	alts := make([][]c02Req, 0, n)
 	for i := 0; i < n; i++ {
 		if r.Chance(1, 6) {
@@ -522,6 +814,9 @@ func c02GenAlts(r *proto.Rng, names []string) [][]c02Req {
 			alt[j] = c02Req{name: nm}
 			if r.Chance(1, 3) {
 				m := 1 + r.Intn(2)
+				if r.Chance(1, 6) {
+					m = 3
+				}
 				for x := 0; x < m; x++ {
 					alt[j].scopes = append(alt[j].scopes, r.Pick(c02Scopes...))
 				}
@@ -543,6 +838,9 @@ type c02Structure struct {
 func c02GenStructure(r *proto.Rng) c02Structure {
 	nn := 2 + r.Intn(4)
 	st := c02Structure{names: c02Names[:nn]}
+	if r.Chance(1, 4) {
+		st.names = c02LongNames[:nn]
+	}
 	// the "malformed" stream: documents that reference undefined schemes, authenticators registered
 	// for undefined schemes or missing for defined ones
 	sloppy := r.Chance(1, 3)
@@ -592,6 +890,9 @@ func c02GenRequest(r *proto.Rng, st c02Structure) []string {
 			oc = "a" + proto.B("p"+nm)
 			if r.Chance(1, 5) {
 				oc = "a" + proto.B("shared")
+			} else if r.Chance(1, 6) {
+				// accepted with a principal that is not nil but a zero value (the empty text)
+				oc = "a" + proto.B("")
 			}
 		default:
 			oc = c02GenErr(r)
@@ -613,7 +914,7 @@ func c02GenRequest(r *proto.Rng, st c02Structure) []string {
 		case 2:
 			authz = "D" + c02GenErr(r)
 		case 3, 4:
-			authz = "O" + proto.B(r.Pick("p"+r.Pick(st.names...), "shared")) + "." + c02GenErr(r)
+			authz = "O" + proto.B(r.Pick("p"+r.Pick(st.names...), "shared", "p"+r.Pick(st.names...), "shared", "")) + "." + c02GenErr(r)
 		case 5:
 			authz = "Z" + c02GenErr(r)
 		}
